@@ -70,7 +70,7 @@ def _level_ir(f, lag_symbol_prefix="x"):
 def rule_r1_r2(chk):
     chk.rule("C17-R1", "for each class in _ALL_LHS_TRANSFORMS: substituting the level formula l(r, x[-1]) for x in the "
              "transform t(x, x[-1]) denoted by _LHS_PATTERN gives r identically; the transform is the documented formula "
-             "of that name", floor=10)
+             "of that name", floor=10, shape_independent=True)
     chk.rule("C17-R2", "the text the preparser emits for <transform>(name) with the default shift fully matches the "
              "transform's _LHS_PATTERN and no earlier pattern in the tuple; NAME alone matches only the first", floor=6)
     m, classes = _lhs_classes(chk)
@@ -135,7 +135,7 @@ def rule_r1_r2(chk):
 
 def rule_r3(chk, lhs_classes):
     chk.rule("C17-R3", "each PlanTransform*.eval_exogenized(r, x_before[shift]) inverts the documented forward formula "
-             "of its name; CHOOSE_TRANSFORM_CLASS maps every LHS transform name (and aliases) to that class", floor=10)
+             "of its name; CHOOSE_TRANSFORM_CLASS maps every LHS transform name (and aliases) to that class", floor=10, shape_independent=True)
     m = chk.repo.mod(PMOD)
     tab = m.assign("CHOOSE_TRANSFORM_CLASS")
     from .. import fin as _fin
